@@ -138,6 +138,20 @@ namespace vc
     };
     Backend* make_backend(const std::string& kind, const std::string& skew);
 
+    class LogAlloc;
+    // stateless face of the instrumented allocator (an empty class forwarding to the execution's LogAlloc): the
+    // helpers have separate overloads for allocators passed by const reference / as temporaries
+    LogAlloc*& slog_target();
+    struct SLog
+    {
+        void* allocate_node(std::size_t size, std::size_t alignment);
+        void  deallocate_node(void* p, std::size_t size, std::size_t alignment) noexcept;
+        std::size_t max_node_size() const noexcept
+        {
+            return std::size_t(1) << 30;
+        }
+    };
+
     struct LiveAlloc
     {
         int         id;
